@@ -78,6 +78,10 @@ func c18NameLabel(n string) string {
 // keys: two plain ones, one that looks like an entity file, and one that is another key plus ".tmp"
 var c18Keys = []string{"k1", "x.entity", "k1.tmp"}
 
+// c18Canon: hc's file storage drops every ':' from a key (its documented way to make a file name); keys that differ
+// only in colons are one key. The model follows that, so that keys with colons can be part of the histories.
+func c18Canon(k string) string { return strings.ReplaceAll(k, ":", "") }
+
 type c18Model struct {
 	kv map[string][]byte
 }
@@ -163,7 +167,7 @@ func c18Play(c *fw.Ctx, layer string, hist []c18Op, dir string) (state string, o
 				if err == nil {
 					handed[k] = got
 				}
-				want, present := model[k]
+				want, present := model[c18Canon(k)]
 				switch {
 				case present && err != nil:
 					fail("get-lost/after-"+after, fmt.Sprintf("Get(%q) fails (%v) although the key was set", k, err))
@@ -183,7 +187,7 @@ func c18Play(c *fw.Ctx, layer string, hist []c18Op, dir string) (state string, o
 				}
 			}
 			for k, got := range handed {
-				if want, present := model[k]; present && !bytes.Equal(got, want) {
+				if want, present := model[c18Canon(k)]; present && !bytes.Equal(got, want) {
 					fail("get-result-changed-later/after-"+after, fmt.Sprintf("the value Get(%q) returned was right when it was returned and has changed since other keys were read: now %d bytes %q…", k, len(got), trunc(got, 24)))
 					return false
 				}
@@ -245,7 +249,7 @@ func c18Play(c *fw.Ctx, layer string, hist []c18Op, dir string) (state string, o
 			switch op.Op {
 			case "set":
 				label = "set-" + c18ValLabel(op.Val)
-				if old, ok := model[op.Key]; ok {
+				if old, ok := model[c18Canon(op.Key)]; ok {
 					switch {
 					case len(c18Vals[op.Val]) < len(old):
 						label += "-over-longer"
@@ -260,12 +264,12 @@ func c18Play(c *fw.Ctx, layer string, hist []c18Op, dir string) (state string, o
 					failed = true
 					return
 				}
-				model[op.Key] = c18Vals[op.Val]
+				model[c18Canon(op.Key)] = c18Vals[op.Val]
 			case "get":
 				// judged by checkAll
 			case "delete":
 				st.Delete(op.Key)
-				delete(model, op.Key)
+				delete(model, c18Canon(op.Key))
 			case "keys":
 			case "reopen":
 				st, _ = util.NewFileStorage(dir)
@@ -412,6 +416,10 @@ func c18Run(c *fw.Ctx) {
 		c18Keys = []string{"k1", "K1"}
 		c18Explore(c, "storage", c18StorageOps(), depth)
 		c18Keys = saved
+		// a key with colons next to its colon-free spelling (one key for this storage)
+		c18Keys = []string{"3C:22:FB.val", "3C22FB.val"}
+		c18Explore(c, "storage", c18StorageOps(), depth-1)
+		c18Keys = saved
 		// one key, values of every shape (line breaks, blanks, NUL, 0xff at either end)
 		savedVals := c18Vals
 		c18Keys, c18Vals = []string{"k1"}, c18ValShapes
@@ -459,7 +467,7 @@ func init() {
 	fw.Register(&fw.Check{
 		ID:     "C18",
 		Level:  "model_checking",
-		Rule:   "explicit-state breadth-first search over the real file storage and pairing database: alphabet Set(k,v) for 3 keys (thorough 4; one looks like an entity file, one is another key plus .tmp) × 5 values (lengths 0,1,3,6,4096), Get, Delete, KeysWithSuffix × 3 suffixes, reopen; SaveEntity (3 key lengths) / EntityWithName / DeleteEntity / Entities / reopen for 9 entity names (ASCII, empty, non-ASCII, with slash, with colon, 100 arbitrary bytes, invalid UTF-8 ending in 0xfe and in 0xee, a name ending in '.entity'). State = exact directory content (file names and bytes); every operation is executed in every discovered state by replaying the state's shortest history on a fresh directory; after every step all keys, listings and entities are compared with a Go map. Because that merging is sound only if the storage object holds nothing but the path, EVERY history of length 3 (thorough 4) over a reduced alphabet (2 keys × 4 values, get, delete, listing, reopen; 3 entity names) is additionally replayed without merging. distinct_nontrivial = distinct (layer, operation) classes executed Added: the searches repeated in storage directories named 'Lamp [Kitchen]', 'a*b', 'what?', '[a-', 'back\\slash', '{x,y}', 'per%cent', ' lead and trail '; writes cut short by the operating system (RLIMIT_FSIZE) for Set and SaveEntity — success only with the complete value, failure leaves the previous one; a storage BFS over two keys that differ only in letter case; entity names \"A\" (next to \"a\") and a 124-byte name. Plus, in a subprocess built with a scheduling point before EVERY statement of hc's packages (textual insertion through go build -overlay): every interleaving with at most 1 (thorough 2) preemptions of pairs of operations on disjoint objects — and, where the property is about served requests, of pairs of handlers on two verified connections of one accessory touching different characteristics — each side must observe exactly what it observes when the two run one after the other (module-level mutable state is what makes them differ). Also one key with 8 value shapes (line breaks, blanks, NUL, 0xff at either end, nothing but line breaks) to depth 3, and public keys whose base64 text consists of hexadecimal digits only; what Get returned stays what it was while other keys are read.",
+		Rule:   "explicit-state breadth-first search over the real file storage and pairing database: alphabet Set(k,v) for 3 keys (thorough 4; one looks like an entity file, one is another key plus .tmp) × 5 values (lengths 0,1,3,6,4096), Get, Delete, KeysWithSuffix × 3 suffixes, reopen; SaveEntity (3 key lengths) / EntityWithName / DeleteEntity / Entities / reopen for 9 entity names (ASCII, empty, non-ASCII, with slash, with colon, 100 arbitrary bytes, invalid UTF-8 ending in 0xfe and in 0xee, a name ending in '.entity'). State = exact directory content (file names and bytes); every operation is executed in every discovered state by replaying the state's shortest history on a fresh directory; after every step all keys, listings and entities are compared with a Go map. Because that merging is sound only if the storage object holds nothing but the path, EVERY history of length 3 (thorough 4) over a reduced alphabet (2 keys × 4 values, get, delete, listing, reopen; 3 entity names) is additionally replayed without merging. distinct_nontrivial = distinct (layer, operation) classes executed Added: the searches repeated in storage directories named 'Lamp [Kitchen]', 'a*b', 'what?', '[a-', 'back\\slash', '{x,y}', 'per%cent', ' lead and trail '; writes cut short by the operating system (RLIMIT_FSIZE) for Set and SaveEntity — success only with the complete value, failure leaves the previous one; a storage BFS over two keys that differ only in letter case; entity names \"A\" (next to \"a\") and a 124-byte name. Plus, in a subprocess built with a scheduling point before EVERY statement of hc's packages (textual insertion through go build -overlay): every interleaving with at most 1 (thorough 2) preemptions of pairs of operations on disjoint objects — and, where the property is about served requests, of pairs of handlers on two verified connections of one accessory touching different characteristics — each side must observe exactly what it observes when the two run one after the other (module-level mutable state is what makes them differ). Also one key with 8 value shapes (line breaks, blanks, NUL, 0xff at either end, nothing but line breaks) to depth 3, and public keys whose base64 text consists of hexadecimal digits only; what Get returned stays what it was while other keys are read; a key with colons next to its colon-free spelling (the storage drops colons: one key).",
 		Shards: func(string) int { return 16 },
 		Run:    c18Run,
 		Replay: func(c *fw.Ctx, raw json.RawMessage) {
@@ -481,7 +489,7 @@ func init() {
 			c.State(1)
 		},
 		Budget:      func(string) time.Duration { return 20 * time.Minute },
-		Assumptions: []string{"storage keys stay within the characters hc itself uses (raw keys lose ':' by design, noted not judged)", "state merging on exact directory content is sound because the storage object holds nothing but the path"},
+		Assumptions: []string{"storage keys stay within the characters hc itself uses plus the colon, which the storage drops by design: keys that differ only in colons are modelled as one key", "state merging on exact directory content is sound because the storage object holds nothing but the path"},
 	})
 }
 
